@@ -635,6 +635,15 @@ Definition pend_facts (k : Z) (wb : Z) (s : cubic) (x0 D : R) : Prop :=
   is_finite (cwnd s) = true /\
   B2R (cwnd s) * IZR (mss s) = x0 * (1 + D) /\ Rabs D <= IZR k * (4 * u53).
 
+(* Why a bound on the number of consecutive set_mss calls (PEND_MAX, C15_Pred2.v): every effective
+   set_mss multiplies cwnd * mss by (1 + d), |d| <= 3 * 2^-53, and the errors can add up in one
+   direction.  NOT machine-checked (the chain is too long to evaluate inside Coq; observed on the
+   real code through harness `cubic` and in an IEEE-double simulation of the model):
+     cubic 17555 w4294967295 r4000000000,4294967295 (m40744 m17555) x 1687000 w4294967295
+   gives window() 4000000000 before the 3374000 MSS changes and 3999999998 after the same peer
+   window is re-applied (sshthresh() 4294967295 -> 4294967293): two bytes lost, so the +-1 byte
+   clause of c15_obs_ok fails there and `forall ops, c15_obs_ok ... = true` is false without the
+   bound.  With at most 65536 consecutive calls the drift is below 1/4 byte (pend_check). *)
 Definition pend_inv (n : Z) (s : cubic) (a : c15_acc) : Prop :=
   forall wb mb, a_pend a = Some (wb, mb) ->
     (2 * mb + 1 < wb)%Z -> (wb + 1 < a_win a)%Z -> (a_win a < 2 ^ 32)%Z ->
